@@ -17,7 +17,7 @@ import z3
 from engine.cvc.exec import (IntV, BoolV, FltV, PtrV, PyObj, StrV, ArrV,
                              StructV, Opaque, Region, NULL, FuncV, CT, Oblig,
                              Unsupported, CallRec, toint, tobool, Impure,
-                             sizeof_type, LObjField)
+                             sizeof_type, LObjField, NeedFork)
 from engine.cvc import cast as cast_mod
 
 E_SIZE = [8, 8, 16]
@@ -110,6 +110,12 @@ def write_num(ex, st, n, args):
     return Opaque('void')
 
 
+def exc_if(st, cond, name):
+    """the callee has set exception `name` on the executions where cond
+    holds (the caller learns it from the callee's return value)"""
+    st.ghost['exc_if'] = list(st.ghost.get('exc_if', [])) + [(cond, name)]
+
+
 def convert_num(ex, st, n, args):
     """convert_num[id](dest, obj, scalar, offset): returns 0 or -1; with
     scalar != 0 the object is converted as a Python number, which fails for
@@ -124,6 +130,7 @@ def convert_num(ex, st, n, args):
                                         z3.Not(obj.obj.ismat)))
     except Unsupported:
         pass
+    exc_if(st, z3.Not(ok), 'PyExc_TypeError')
     return IntV(z3.If(ok, 0, -1), 'int')
 
 
@@ -263,6 +270,7 @@ def matrix_new_from_matrix(ex, st, n, args):
         s = src.obj
         ex.axioms.append(z3.Implies(z3.Not(fails), z3.And(
             o.ismat, o.nrows == s.nrows, o.ncols == s.ncols, o.id == i.t)))
+    exc_if(st, fails, 'PyExc_MemoryError')
     return PtrV(None, 0, 'matrix', null=fails, obj=o)
 
 
@@ -424,6 +432,281 @@ def mk_ob(ex, extra_obs):
                                    goal, bool) else z3.BoolVal(goal), text,
                                line))
     return ob
+
+
+# ------------------------------------------------ indexed assignment
+def det_bool(st, n, name):
+    """a Bool whose name depends only on the call site and on how often the
+    path has passed it: a statement re-executed after a fork regenerates the
+    same symbol"""
+    key = ('detbool', name, n.get('line'), (n.get('off') or (0, 0))[0])
+    cnt = st.ghost.get(key, 0)
+    st.ghost[key] = cnt + 1
+    return z3.Bool('%s@%s.%s#%d' % (name, key[2], key[3], cnt))
+
+
+def create_indexlist(ex, st, n, args):
+    """ASSUMED contract of create_indexlist(dim, A) (dense.c; its own body is
+    outside the subset: it needs a quantified invariant over buffer contents):
+    NULL with IndexError/TypeError/MemoryError set, or an 'i' matrix every
+    element e of which satisfies -dim <= e < dim.  For a matrix argument the
+    result is the argument itself."""
+    if st.pure:
+        raise Impure()
+    dim = toint(ex.ev(args[0], st)).t
+    a = ex.ev(args[1], st)
+    ex.trusted.add('create_indexlist(dim, A): NULL with an exception, or an '
+                   "'i' matrix with all elements in [-dim, dim) (assumed, "
+                   'dense.c:659)')
+    if not isinstance(a, PtrV) or a.obj is None:
+        raise Unsupported('create_indexlist of %r' % (a,))
+    fails = det_bool(st, n, 'create_indexlist_fails')
+    d = ex.decide(st, fails)
+    if d is None:
+        raise NeedFork(fails)
+    if d:
+        st.exc = 'PyExc_IndexError'
+        st.ghost['exc_choice'] = ('PyExc_IndexError', 'PyExc_TypeError',
+                                  'PyExc_MemoryError')
+        return NULL
+    dm = ex.decide(st, a.obj.ismat)
+    if dm is None:
+        raise NeedFork(a.obj.ismat)
+    if dm:
+        o = a.obj
+        st.pc.append(o.id == 0)
+        me = ex.objs.get('self')
+        if me is not None and o is not me and \
+                ex.cfg.get('index_may_alias', True):
+            # the index argument may be the indexed matrix itself (A[A] = c)
+            same = det_bool(st, n, 'index_is_self')
+            ds = ex.decide(st, same)
+            if ds is None:
+                raise NeedFork(same)
+            if ds:
+                st.pc.append(z3.And(me.id == 0, o.nrows == me.nrows,
+                                    o.ncols == me.ncols))
+                st.ghost['alias_self'] = st.ghost.get('alias_self', ()) + (
+                    o.name,)
+                o = me
+    else:
+        o = ex.new_obj('indexlist', fresh=True)
+        st.pc.append(z3.And(o.ismat, o.id == 0, o.ncols == 1, o.nrows >= 0,
+                            z3.Not(o.issp)))
+        islong = a.obj.extra.get('islong')
+        if islong is not None:
+            st.pc.append(z3.Implies(islong, o.nrows == 1))
+    r = o.buffer_region()
+    st.ghost[('elem_inv', r.uid)] = (lambda e, dim=dim: z3.And(e >= -dim,
+                                                              e < dim))
+    lists = list(st.ghost.get('indexlists', []))
+    lists.append((r, dim, o))
+    st.ghost['indexlists'] = lists
+    return PtrV(None, 0, 'matrix', obj=o)
+
+
+def write_num_indexed(ex, st, n, args):
+    """write_num[id] as used by indexed assignment: besides the bounds, the
+    element written is the documented one: A[I[i]] / A[I[i], J[j]] with
+    negative indices counted from the end, column-major"""
+    r = write_num(ex, st, n, args)
+    dst = ex.ev(args[1], st)
+    idx = toint(ex.ev(args[2], st)).t
+    loads_before = {k_: v for k_, v in st.ghost.items() if isinstance(
+        k_, tuple) and k_ and k_[0] == 'last_load'}
+    if isinstance(dst, PtrV) and dst.region is not None:
+        # a store into a buffer ends what was known about its elements
+        st.ghost.pop(('elem_inv', dst.region.uid), None)
+        st.ghost.pop(('last_load', dst.region.uid), None)
+    me = ex.objs.get('self')
+    lists = st.ghost.get('indexlists', [])
+    if me is None or not isinstance(dst, PtrV) or dst.region is not \
+            me.buffer_region() or not lists:
+        return r
+
+    def wrap(e, m):
+        return z3.If(e >= 0, e, m + e)
+    loads = [(loads_before.get(('last_load', reg.uid)), dim)
+             for reg, dim, _ in lists]
+    if any(l is None for l, _ in loads):
+        return r
+    if len(lists) == 1:
+        want = wrap(loads[0][0], loads[0][1])
+        text = 'A[I] = ... writes element I[k] (counted from the end when ' \
+            'negative)'
+    else:
+        want = wrap(loads[-2][0], me.nrows) + wrap(loads[-1][0], me.ncols) \
+            * me.nrows
+        text = 'A[I,J] = ... writes element (I[i], J[j]) of the column-major' \
+            ' array (negative indices counted from the end)'
+    ex.oblige(st, 'index-address', idx == want, n, text=text)
+    return r
+
+
+def write_num_gather(ex, st, n, args):
+    """write_num[id] as used by indexing with index lists: the element read
+    from the indexed matrix is the documented one"""
+    r = write_num(ex, st, n, args)
+    src = ex.ev(args[3], st)
+    j = toint(ex.ev(args[4], st)).t
+    me = ex.objs.get('self')
+    lists = st.ghost.get('indexlists', [])
+    if me is None or not isinstance(src, PtrV) or src.region is not \
+            me.buffer_region() or not lists:
+        return r
+
+    def wrap(e, m):
+        return z3.If(e >= 0, e, m + e)
+    loads = [(st.ghost.get(('last_load', reg.uid)), dim)
+             for reg, dim, _ in lists]
+    if any(l is None for l, _ in loads):
+        return r
+    if len(lists) == 1:
+        want = wrap(loads[0][0], loads[0][1])
+        text = 'A[I] reads element I[k] (counted from the end when negative)'
+    else:
+        want = wrap(loads[-2][0], me.nrows) + wrap(loads[-1][0], me.ncols) \
+            * me.nrows
+        text = 'A[I,J] reads element (I[i], J[j]) of the column-major array'
+    ex.oblige(st, 'index-address', j == want, n, text=text)
+    return r
+
+
+def matrix_from_object(idarg):
+    def h(ex, st, n, args):
+        """Matrix_NewFromSequence(x, id) / Matrix_NewFromPyBuffer(x, id,
+        &ndim): NULL with an exception, or a new matrix (any size)"""
+        if st.pure:
+            raise Impure()
+        fails = det_bool(st, n, 'conversion_fails')
+        d = ex.decide(st, fails)
+        if d is None:
+            raise NeedFork(fails)
+        if d:
+            st.exc = 'PyExc_TypeError'
+            return NULL
+        o = ex.new_obj('converted', fresh=True)
+        st.pc.append(z3.And(o.ismat, z3.Not(o.issp)))
+        idv = toint(ex.ev(args[idarg], st)).t
+        st.pc.append(z3.Implies(idv >= 0, o.id == idv))
+        if len(args) > 2:
+            p = ex.ev(args[2], st)
+            if isinstance(p, PtrV):
+                nd = ex.fresh_int('ndim', 'int')
+                st.pc.append(z3.And(nd.t >= 1, nd.t <= 2))
+                ex.store_through(p, nd, st, n)
+        return PtrV(None, 0, 'matrix', obj=o)
+    return h
+
+
+def check_buffer(ex, st, n, args):
+    p = ex.ev(args[0], st)
+    if isinstance(p, PtrV) and p.obj is not None:
+        return BoolV(z3.Bool('hasbuffer(%s)' % p.obj.name))
+    raise Unsupported('PyObject_CheckBuffer of %r' % (p,))
+
+
+def tuple_pack(ex, st, n, args):
+    """PyTuple_Pack(k, o1, ..., ok): NULL (MemoryError) or a new tuple of
+    exactly these items"""
+    if st.pure:
+        raise Impure()
+    k = z3.simplify(toint(ex.ev(args[0], st)).t)
+    if not z3.is_int_value(k) or k.as_long() != len(args) - 1:
+        raise Unsupported('PyTuple_Pack with a symbolic count')
+    items = [ex.ev(a, st) for a in args[1:]]
+    fails = det_bool(st, n, 'PyTuple_Pack_fails')
+    d = ex.decide(st, fails)
+    if d is None:
+        raise NeedFork(fails)
+    if d:
+        st.exc = 'PyExc_MemoryError'
+        return NULL
+    t = ex.new_obj('packed', fresh=True)
+    t.extra['istuple'] = z3.BoolVal(True)
+    t.extra['tuplen'] = z3.IntVal(len(items))
+    for i, it in enumerate(items):
+        if not isinstance(it, PtrV) or it.obj is None:
+            raise Unsupported('PyTuple_Pack of %r' % (it,))
+        t.extra['item%d' % i] = it.obj
+    return PtrV(None, 0, 'PyObject', obj=t)
+
+
+def noalias_callee(ex, st, n, args):
+    """contract of matrix_ass_subscr_noalias(self, args, val), proved on its
+    body under the same precondition: requires that neither args nor, for a
+    pair, one of its two items is the matrix itself; returns 0 or -1 with an
+    exception set"""
+    if st.pure:
+        raise Impure()
+    me = ex.ev(args[0], st)
+    a = ex.ev(args[1], st)
+    if not isinstance(me, PtrV) or not isinstance(a, PtrV) or \
+            me.obj is None or a.obj is None:
+        raise Unsupported('matrix_ass_subscr_noalias of %r' % (a,))
+    req = [z3.Not(ex.alias_bool(a.obj, me.obj)) if a.obj is not me.obj
+           else z3.BoolVal(False)]
+    ist = a.obj.extra.get('istuple', z3.Bool('istuple(%s)' % a.obj.name))
+    ex.axioms.append(z3.Implies(a.obj.ismat, z3.Not(ist)))
+    ln = a.obj.extra.setdefault('tuplen', z3.Int('len(%s)' % a.obj.name))
+    for i in range(2):
+        it = a.obj.extra.get('item%d' % i)
+        if it is None:
+            it = ex.new_obj('%s[%d]' % (a.obj.name, i))
+            a.obj.extra['item%d' % i] = it
+        same = z3.BoolVal(True) if it is me.obj else ex.alias_bool(it, me.obj)
+        req.append(z3.Implies(z3.And(ist, ln == 2), z3.Not(same)))
+    ex.oblige(st, 'extern-requires', z3.And(req), n,
+              text='matrix_ass_subscr_noalias requires that no index '
+              'argument is the assigned matrix itself')
+    ok = det_bool(st, n, 'assignment_ok')
+    d = ex.decide(st, ok)
+    if d is None:
+        raise NeedFork(ok)
+    if not d:
+        st.exc = 'PyExc_TypeError'
+        return IntV(z3.IntVal(-1), 'int')
+    return IntV(z3.IntVal(0), 'int')
+
+
+def tuple_get_size(ex, st, n, args):
+    return pytuple_size(ex, st, n, args)
+
+
+def init_ass_subscr(ex, st, params):
+    """(matrix *self, PyObject *args, PyObject *val)"""
+    o = self_matrix(ex, st, params[0])
+    a = ex.new_obj('args')
+    st.vars[params[1]['id']] = PtrV(None, 0, 'PyObject', obj=a)
+    v = ex.new_obj('val')
+    st.vars[params[2]['id']] = PtrV(None, 0, 'PyObject', obj=v,
+                                    null=ex.fresh_bool('val_is_NULL'))
+
+
+def post_ass_subscr(ex, finished, extra_obs):
+    ob = mk_ob(ex, extra_obs)
+    nok = 0
+    allowed = ('PyExc_TypeError', 'PyExc_IndexError',
+               'PyExc_NotImplementedError', 'PyExc_MemoryError',
+               'PyExc_ValueError')
+    for st, kind, val in finished:
+        if not isinstance(val, (IntV, BoolV)):
+            continue
+        pc = st.path()
+        rv = toint(val).t
+        if ex.check(pc, [rv == 0]) == z3.unsat:
+            exc = st.exc
+            if exc is None:
+                for cond, name in st.ghost.get('exc_if', []):
+                    if ex.check(pc, [z3.Not(cond)]) == z3.unsat:
+                        exc = name
+            ob('reject-exception', pc, z3.BoolVal(exc in allowed),
+               'a failing indexed assignment raises TypeError, IndexError, '
+               'NotImplementedError or MemoryError (got %s)' % exc)
+        elif ex.check(pc, [rv != 0]) == z3.unsat:
+            nok += 1
+    ob('covered', [], z3.BoolVal(nok > 0), 'a success path exists')
+    return {'success_paths': nok}
 
 
 def is_error(val):
@@ -738,10 +1021,11 @@ FUNCS = {
                    'externs': {k: v for k, v in COMMON.items() if k !=
                                'Matrix_New'}},
     'matrix_subscr': {'init': init_self_args, 'post': post_subscr,
-                      'externs': COMMON,
-                      'config': {'allow_unsupported': [
-                          'create_indexlist', 'PySlice', 'loop',
-                          'Matrix_NewFromSequence', 'spmatrix']}},
+                      'externs': None,
+                      'config': {'index_may_alias': False,
+                                 'allow_unsupported': [
+                                     'PySlice', 'Matrix_NewFromSequence',
+                                     'spmatrix']}},
     'matrix_set_size': {'init': init_set_size, 'post': post_set_size,
                         'externs': COMMON},
     'matrix_buffer_getbuf': {'init': init_getbuf, 'post': post_getbuf,
@@ -758,4 +1042,31 @@ FUNCS = {
                            'externs': COMMON},
     'matrix_buffer_relbuf': {'init': init_getbuf, 'post': None,
                              'externs': COMMON},
+    'matrix_ass_subscr': {
+        'init': init_ass_subscr, 'post': post_ass_subscr,
+        'externs': dict(COMMON, **{
+            'matrix_ass_subscr_noalias': noalias_callee,
+            'PyTuple_Pack': tuple_pack,
+            'PyTuple_GET_SIZE': tuple_get_size})},
+    'matrix_ass_subscr_noalias': {
+        'init': init_ass_subscr, 'post': post_ass_subscr,
+        'externs': dict(COMMON, **{
+            'create_indexlist': create_indexlist,
+            'write_num[]': write_num_indexed,
+            'Matrix_NewFromSequence': matrix_from_object(1),
+            'Matrix_NewFromPyBuffer': matrix_from_object(1),
+            'PyObject_CheckBuffer': check_buffer}),
+        # precondition (established by the wrapper, see noalias_callee): no
+        # index argument is the matrix itself
+        'config': {'index_may_alias': False,
+                   'allow_unsupported': ['PySlice', 'spmatrix', 'SP_',
+                                         'sparse']}},
+    'Matrix_NewFromSequence': {'init': None, 'post': None,
+                               'externs': COMMON},
+    'Matrix_NewFromPyBuffer': {'init': None, 'post': None,
+                               'externs': COMMON},
+    'dense_concat': {'init': None, 'post': None, 'externs': COMMON},
 }
+
+FUNCS['matrix_subscr']['externs'] = dict(COMMON, **{
+    'create_indexlist': create_indexlist, 'write_num[]': write_num_gather})
